@@ -774,7 +774,19 @@ def checkEngine (cfg : Cfg) (lines : List String) (shared : Bool := false) : Cas
           match d.props.find? (·.1 == k) with
           | some (_, ty, v, r) =>
             match modelProp cfg inst.store k ty v r with
-            | .ok mv => if !valueAgrees mv o then st := st.diff s!"task property {showText k}: model {showVal mv} differs"
+            | .ok mv =>
+              if !valueAgrees mv o then
+                st := st.diff s!"task property {showText k}: model {showVal mv} differs"
+                -- the value handed to the task is the one ANOTHER instance of the case would get: the instances are not
+                -- isolated from each other (a failing input for the property, not only a model / implementation difference)
+                let others := (insts.toList.zipIdx.filter (·.2 != cur)).filter (fun (oi, _) =>
+                  match modelProp cfg oi.store k ty v r with
+                  | .ok ov => valueAgrees ov o
+                  | .error _ => false)
+                match others.head? with
+                | some (_, j) =>
+                  st := st.spec s!"instances_not_isolated: instance {cur} was handed, as task property {showText k}, the value instance {j} gets ({showVal mv} expected)"
+                | none => pure ()
             | .error _ => st := st.diff s!"task property {showText k}: model panics"
           | none => st := st.diff s!"task property {showText k} was not declared"
         | _, _ => st := st.bad ln
